@@ -1028,7 +1028,7 @@ fn mux_run(na: u32, nc: u32, rfs: u64, script: &[u8], hs: Option<&[u8]>) -> (Str
                 vec![(0, qa)],
                 vec![(0, qc)],
             );
-            tokio::time::timeout(std::time::Duration::from_secs(5), mux.run(ctx, transport)).await
+            tokio::time::timeout(std::time::Duration::from_secs(300), mux.run(ctx, transport)).await
         })
     }));
     let used = consumed.load(Relaxed) as i64 - hs_len as i64;
